@@ -47,6 +47,14 @@ def linear_configs(tier):
         for norm in (None, 1, 2):
           out.append(dict(kind="linear", n=n, mono=list(mono), md=[list(p) for p in ds["md"]],
                           rd=[list(p) for p in ds["rd"]], shift=ds["shift"], norm=norm))
+          # the same configuration with the documented string spellings, and with the pairs
+          # listed in reverse order (the projection sorts topologically: order must not matter)
+          if norm in (None, 1):
+            out.append(dict(kind="linear", n=n, mono=list(mono), md=[list(p) for p in ds["md"]],
+                            rd=[list(p) for p in ds["rd"]], shift=ds["shift"], norm=norm, spell="str"))
+          if len(ds["md"]) + len(ds["rd"]) >= 2 and norm is None:
+            out.append(dict(kind="linear", n=n, mono=list(mono), md=[list(p) for p in ds["md"]][::-1],
+                            rd=[list(p) for p in ds["rd"]][::-1], shift=ds["shift"], norm=norm))
   return out
 
 
@@ -58,6 +66,8 @@ def cat_configs(tier):
         if tier == "quick" and nb == 4 and (lo is None) != (hi is None):
           continue
         out.append(dict(kind="cat", nb=nb, pairs=[list(p) for p in g], lo=lo, hi=hi))
+        if len(g) >= 2 and lo is None and hi is None:
+          out.append(dict(kind="cat", nb=nb, pairs=[list(p) for p in g][::-1], lo=lo, hi=hi))
   return out
 
 
@@ -69,7 +79,10 @@ def ranges_for(cfg):
 def apply_linear(cfg, W):
   tf, tfl = bind.bind()
   from tensorflow_lattice.python import linear_layer
-  kw = dict(monotonicities=list(cfg["mono"]), normalization_order=cfg["norm"])
+  mono_arg = list(cfg["mono"])
+  if cfg.get("spell") == "str":
+    mono_arg = [{1: "increasing", -1: "decreasing", 0: "none"}[m] for m in mono_arg]
+  kw = dict(monotonicities=mono_arg, normalization_order=cfg["norm"])
   if cfg["md"]:
     kw["monotonic_dominances"] = [tuple(p) for p in cfg["md"]]
   if cfg["rd"]:
